@@ -74,6 +74,9 @@ class SerialAssembleAction : public AssembleAction {
   private:
     Action *curr_action_ = nullptr;     //! 当前正在执行的动作
     ChildFinishFunc child_finish_func_; //! 上一个动用缓存的finish事件
+    event::Loop::RunId child_finish_run_id_ = 0;    //! 恢复时补发的finish事件的任务号
+
+    void dropChildFinishFunc();
 };
 
 }
